@@ -390,6 +390,28 @@ where str(<tail>) == "u"
 where str(<tail>) == "v"
 where str(<d>) == "1"
 """,
+    # computed repetitions whose body puts several children under the parent per round (repairs insert / delete whole rounds)
+    """<start> ::= <n> ":" (<a> <b>){1,int(<n>)}
+<n> ::= "1" | "2" | "3"
+<a> ::= "x"
+<b> ::= "y"
+where int(<n>) < 3
+""",
+    """<start> ::= <n> (<a> <b> <a>){int(<n>)} "." <t>
+<n> ::= "1" | "2" | "3" | "4"
+<a> ::= "x" | "z"
+<b> ::= "y"
+<t> ::= "p" | "q"
+where int(<n>) <= 2
+where str(<t>) == "q"
+""",
+    """<start> ::= <rec>{1,2}
+<rec> ::= <n> "=" (<k> ":" <v> ";"){int(<n>),3}
+<n> ::= "1" | "2" | "3"
+<k> ::= "a" | "b"
+<v> ::= "0" | "1"
+where int(<n>) >= 2
+""",
 ]
 
 CONSTRAINTS = [
@@ -421,7 +443,7 @@ def end_to_end(res, n):
     Evaluator.evaluate_individual = wrapped
     try:
         for i in range(n):
-            fixed = E2E_FIXED[i % len(E2E_FIXED)] if i % 3 == 0 else None
+            fixed = E2E_FIXED[(i // 2) % len(E2E_FIXED)] if i % 2 == 0 else None
             spec = fixed or gen_grammar.gen_spec(rng, kinds=("str", "regex"), depth=rng.randint(2, 3))
             cons = rng.sample(CONSTRAINTS, rng.randint(1, 2))
             if rng.random() < 0.5:
